@@ -501,6 +501,37 @@ def truth_table(atoms, formula, axioms=(), limit=16):
     return bad
 
 
+def _len_atom(e):
+    """(expression whose emptiness is tested, polarity) for the spellings of "is empty / is not empty":
+    len(X) == 0, not len(X), len(X) < 1, 0 == len(X) -> (X, False);  len(X), len(X) > 0, len(X) != 0, len(X) >= 1 -> (X, True);
+    (a bare name tested for truth is NOT included: it may be a boolean flag)."""
+    def is_len(x):
+        return isinstance(x, ast.Call) and isinstance(x.func, ast.Name) and x.func.id == 'len' and len(x.args) == 1 and not x.keywords
+    if is_len(e):
+        return e.args[0], True
+    if isinstance(e, ast.Compare) and len(e.ops) == 1:
+        l, op, r = e.left, e.ops[0], e.comparators[0]
+        if is_len(r) and isinstance(l, ast.Constant):       # const OP len(X)  ->  len(X) OP' const
+            flip = {ast.Lt: ast.Gt, ast.Gt: ast.Lt, ast.LtE: ast.GtE, ast.GtE: ast.LtE, ast.Eq: ast.Eq, ast.NotEq: ast.NotEq}
+            if type(op) in flip:
+                l, op, r = r, flip[type(op)](), l
+        if is_len(l) and isinstance(r, ast.Constant) and isinstance(r.value, int) and not isinstance(r.value, bool):
+            k = r.value
+            if (isinstance(op, ast.Eq) and k == 0) or (isinstance(op, ast.Lt) and k == 1) or (isinstance(op, ast.LtE) and k == 0):
+                return l.args[0], False
+            if (isinstance(op, ast.NotEq) and k == 0) or (isinstance(op, ast.Gt) and k == 0) or (isinstance(op, ast.GtE) and k == 1):
+                return l.args[0], True
+    return None
+
+
+def _atom_key(e, atom):
+    """(key, positive?) of an atomic test: emptiness tests are one atom per tested expression"""
+    la = _len_atom(e)
+    if la is not None:
+        return 'nonempty(%s)' % atom(la[0]), la[1]
+    return atom(e), True
+
+
 def bool_eval(e, env, atom=N):
     """evaluate a boolean AST under an assignment of its atoms (atoms are maximal non and/or/not sub-expressions)."""
     if isinstance(e, ast.BoolOp):
@@ -510,6 +541,9 @@ def bool_eval(e, env, atom=N):
         return not bool_eval(e.operand, env, atom)
     if isinstance(e, ast.Constant) and isinstance(e.value, bool):
         return e.value
+    k, pos = _atom_key(e, atom)
+    if k in env:
+        return env[k] if pos else not env[k]
     k = atom(e)
     if k in env:
         return env[k]
@@ -531,7 +565,7 @@ def bool_atoms(e, atom=N):
         return bool_atoms(e.operand, atom)
     if isinstance(e, ast.Constant) and isinstance(e.value, bool):
         return []
-    return [atom(e)]
+    return [_atom_key(e, atom)[0]]
 
 
 # --------------------------------------------------------------------------------------------- tables (E6)
